@@ -102,7 +102,7 @@ func C09(r *drv.Run) {
 	if !quick(r) {
 		nprog, ntext = 250000, 12
 	}
-	r.Rule = "RunFiles processing file NAMES (its third argument) with eleven find/replace programs over eleven hostile names, listed and as a directory argument, in every mode (one two-command program re-observes known finding K5); five programs that reach debug statements (in transforms, predicates, loops, both branches of an if) while the standard output of the process is /dev/full (every write fails); RunFiles over 300..700 files in one call (listed and as a directory argument, an empty file and a sub-directory among them, one and three commands, every mode) and 600 calls in one process, while the process may hold 256 file descriptors at a time; every backslash escape of the regex sub-language (all 93 printable characters after the backslash) in eleven kinds of place, run when accepted; accepted programs from every generator (core, regex, named loops, whole-*, amount clauses, replace), the hand corpus and repository examples, one-token mutants of those that still compile (empty bodies, exactly 0, odd-but-legal shapes) and terminating transforms/predicates doing arithmetic on the match text; inputs: empty, program-derived matches and every kind of prefix/edit (input ends inside every construct), bytes >= 0x80, \\r\\n, fixed hostile texts; plus RunFiles on empty and tiny files; plus linear-time find/replace programs (literals, classes, amount clauses, a transform building a 5 000-byte replacement) over inputs of 4 097 .. 140 000 bytes with no, one or several far-apart matches, through Run and through RunFiles in every mode; plus RunFiles on directory arguments (it searches the files inside) with legal but unusual names - ending in a backslash, with blanks, named like a file, given with and without a trailing slash, empty, holding a sub-directory. Monitor: panic / fatal error / CPU or heap guard in Run or RunFiles. Non-trivial = the run executed >= 1 VM instruction on a non-empty input or ran on the empty input; distinct by (program, input)."
+	r.Rule = "numbers of 10..31 digits in twenty places (the sources C08 compiles) and skip/take pairs whose sum leaves the 64-bit range, RUN on the hostile texts; RunFiles processing file NAMES (its third argument) with eleven find/replace programs over eleven hostile names, listed and as a directory argument, in every mode (one two-command program re-observes known finding K5); five programs that reach debug statements (in transforms, predicates, loops, both branches of an if) while the standard output of the process is /dev/full (every write fails); RunFiles over 300..700 files in one call (listed and as a directory argument, an empty file and a sub-directory among them, one and three commands, every mode) and 600 calls in one process, while the process may hold 256 file descriptors at a time; every backslash escape of the regex sub-language (all 93 printable characters after the backslash) in eleven kinds of place, run when accepted; accepted programs from every generator (core, regex, named loops, whole-*, amount clauses, replace), the hand corpus and repository examples, one-token mutants of those that still compile (empty bodies, exactly 0, odd-but-legal shapes) and terminating transforms/predicates doing arithmetic on the match text; inputs: empty, program-derived matches and every kind of prefix/edit (input ends inside every construct), bytes >= 0x80, \\r\\n, fixed hostile texts; plus RunFiles on empty and tiny files; plus linear-time find/replace programs (literals, classes, amount clauses, a transform building a 5 000-byte replacement) over inputs of 4 097 .. 140 000 bytes with no, one or several far-apart matches, through Run and through RunFiles in every mode; plus RunFiles on directory arguments (it searches the files inside) with legal but unusual names - ending in a backslash, with blanks, named like a file, given with and without a trailing slash, empty, holding a sub-directory. Monitor: panic / fatal error / CPU or heap guard in Run or RunFiles. Non-trivial = the run executed >= 1 VM instruction on a non-empty input or ran on the empty input; distinct by (program, input)."
 	r.Assumptions = []string{
 		"scope as stated: process code terminates (generated loops carry an incrementing counter), subroutines consume before recursing",
 		"a case exceeding the VM step budget is skipped (termination is C10's claim); a CPU/heap guard trip outside the VM is a violation",
@@ -177,6 +177,17 @@ func C09(r *drv.Run) {
 		for _, shape := range []string{"a%sb", "%s", "(%s)+x", "[%s]", "a%s*", "%s%s", "x|%s", "^%s$", "a%s", "%sa", "(?<n>%s)\\k<n>"} {
 			mutants = append(mutants, "find all @/"+strings.ReplaceAll(shape, "%s", e)+"/")
 		}
+	}
+	// numbers far beyond any text in every place that takes a number without materialising it (the sources C08 compiles):
+	// they run, too - on texts that can never satisfy them
+	c08Counts(func(family, src string) {
+		if src != c08HugeMinimum {
+			mutants = append(mutants, src)
+		}
+	})
+	// amounts whose SUM leaves the 64-bit range although each one is legal
+	for _, pair := range [][2]string{{"1", "9223372036854775807"}, {"9223372036854775807", "1"}, {"9223372036854775807", "9223372036854775807"}, {"4611686018427387904", "4611686018427387904"}, {"2147483647", "9223372036854775807"}} {
+		mutants = append(mutants, "find skip "+pair[0]+" take "+pair[1]+" 'a'", "replace skip "+pair[0]+" take "+pair[1]+" any with 'x'", "find skip "+pair[0]+" take "+pair[1]+" at least 0 'a'")
 	}
 	// two fixed programs re-observe the recorded findings K1 and K3 on every run
 	mutants = append(mutants,
